@@ -427,6 +427,10 @@ func (c *ServerChannel) FinishSession(ctx context.Context) error {
 		if err = c.transport.Close(); err != nil {
 			err = fmt.Errorf("closing the transport failed: %w", err)
 		}
+	} else if c.transport.Connected() {
+		// the farewell could not be sent but the session is over all the same:
+		// do not keep the connection
+		_ = c.transport.Close()
 	}
 
 	return err
@@ -453,6 +457,10 @@ func (c *ServerChannel) FailSession(ctx context.Context, reason *Reason) error {
 		if err = c.transport.Close(); err != nil {
 			err = fmt.Errorf("closing the transport failed: %w", err)
 		}
+	} else if c.transport.Connected() {
+		// the farewell could not be sent but the session is over all the same:
+		// do not keep the connection
+		_ = c.transport.Close()
 	}
 
 	return err
